@@ -479,7 +479,53 @@ func (e *Engine) vanishedLoops(fn *ssa.Function, fc *FuncContract) []int {
 	}
 	var out []int
 	for n, lc := range fc.Loops {
-		if n <= nOld && !kept[n] && lc != nil && (len(lc.Invariants) > 0 || len(lc.Steps) > 0 || lc.Decreases != nil) {
+		// invariants and variants are proof hints for the loop they were written for: when that loop is gone
+		// (typically moved into a helper, where it gets an automatically found contract or none) they are
+		// dropped and the function's own clauses must be proved without them. A step clause states what an
+		// iteration does, i.e. carries part of a property: losing it is reported.
+		if n <= nOld && !kept[n] && lc != nil && len(lc.Steps) > 0 && !stepsCoveredElsewhere(lc) {
+			out = append(out, n)
+		}
+	}
+	sort.Ints(out)
+	return out
+}
+
+// boundedStandIn: properties whose check also runs the real code over a finite domain (extras.go); what a step
+// clause of theirs says about an iteration is exercised there too.
+var boundedStandIn = map[string]bool{"C08": true, "C10": true, "C11": true, "C15": true, "C17": true}
+
+// stepsCoveredElsewhere: every step clause of the loop is tagged only with properties that keep a bounded stand-in,
+// so dropping the clauses with the loop (reported in the evidence notes) does not leave the behaviour unchecked.
+func stepsCoveredElsewhere(lc *LoopContract) bool {
+	for _, c := range lc.Steps {
+		if len(c.Props) == 0 {
+			return false
+		}
+		for _, p := range c.Props {
+			if !boundedStandIn[p] {
+				return false
+			}
+		}
+	}
+	return true
+}
+
+// droppedLoopHints: contract loops without step clauses that no current loop corresponds to (for the evidence notes).
+func (e *Engine) droppedLoopHints(fn *ssa.Function, fc *FuncContract) []int {
+	m, nOld, ok := e.loopAlign(fn)
+	if !ok || nOld == len(m) {
+		return nil
+	}
+	kept := map[int]bool{}
+	for _, o := range m {
+		if o >= 0 {
+			kept[o+1] = true
+		}
+	}
+	var out []int
+	for n, lc := range fc.Loops {
+		if n <= nOld && !kept[n] && lc != nil && (len(lc.Steps) == 0 || stepsCoveredElsewhere(lc)) && (len(lc.Invariants) > 0 || len(lc.Steps) > 0 || lc.Decreases != nil) {
 			out = append(out, n)
 		}
 	}
